@@ -354,7 +354,7 @@ def random_scenario(rng, k):
 
 
 def random_policy_case(rng):
-    kind = rng.choice(POLICY_KINDS)
+    kind = rng.choice(POLICY_KINDS + ("codel", "red", "alifo") if rng.random() < 0.3 else POLICY_KINDS)
     nf = rng.randint(1, 4) if kind in ("fair", "wfair") else 1
     prm = dict(kind=kind, cap=rng.choice((1, 2, 3, 5, INF, INF)), pfc=INF, mxf=INF, thr=INF, bm=0)
     if kind == "fair":
@@ -372,7 +372,7 @@ def random_policy_case(rng):
         r = rng.random()
         if r < 0.55:
             ops.append(("psh", rng.randint(0, 4) if kind in ("prio", "deadline") else 0, rng.randint(1, nf)))
-        elif r < 0.9 or kind != "deadline":
+        elif r < 0.9 or kind not in ("deadline", "codel"):
             ops.append(("pop",))
         else:
             ops.append(("tick",))
@@ -421,7 +421,7 @@ def real_runs(chk, tier, rng, jobs, ascode):
             behaviours.append((sc_from_state(st), [list(r) for r in st["m"]["log"]]))
         j.dump_path.unlink(missing_ok=True)
     chk.extra["model_behaviours_total"] = len(behaviours)
-    cap = 1200 if quick else len(behaviours)
+    cap = 800 if quick else len(behaviours)
     chosen = behaviours if len(behaviours) <= cap else rng.sample(behaviours, cap)
     chk.exhaustive = len(chosen) == len(behaviours)
     matched = 0
@@ -459,7 +459,7 @@ def real_runs(chk, tier, rng, jobs, ascode):
         for st in tlc.parse_dump(pj.dump_path, must_contain=f"n = {maxops}"):
             pol_cases.append(st)
         pj.dump_path.unlink(missing_ok=True)
-    capp = 800 if quick else len(pol_cases)
+    capp = 500 if quick else min(5000, len(pol_cases))
     chosen_p = pol_cases if len(pol_cases) <= capp else rng.sample(pol_cases, capp)
     for st in chosen_p:
         prm = dict(st["prm"])
@@ -480,7 +480,7 @@ def real_runs(chk, tier, rng, jobs, ascode):
 
     # ---- code -> spec: executions beyond the bounds -------------------------------------------------
     t0 = time.time()
-    n_sc = 700 if quick else 11000
+    n_sc = 600 if quick else 6000
     for k in range(n_sc):
         sc = random_scenario(rng, k)
         tick = (10 ** 9, 2 * 10 ** 9, 60 * 10 ** 9)[k % 3]
@@ -491,19 +491,19 @@ def real_runs(chk, tier, rng, jobs, ascode):
         sd = rng.randrange(10 ** 6)
         tr, err = W.run_scenario(sc, tick_ns=tick, end_tick=end_tick, seed=sd, weights=weights)
         add(tr, "random-scenario", ["scenario", sc, tick, end_tick, sd, weights], err)
-    n_pol = 400 if quick else 8000
+    n_pol = 400 if quick else 5000
     for k in range(n_pol):
         prm, Wt, ops = random_policy_case(rng)
         sd = rng.randrange(10 ** 6)
         tr, _ = W.run_policy_ops(prm, Wt, ops, seed=sd)
         add(tr, "random-policy", ["policy", prm, Wt, ops, sd])
-    n_topo = 50 if quick else 1000
+    n_topo = 50 if quick else 600
     for k in range(n_topo):
         sd = rng.randrange(10 ** 9)
         trs, err, _ = W.run_topology(random.Random(sd))
         for tr in trs:
             add(tr, "topology", ["topology", sd], err)
-    n_st = 40 if quick else 800
+    n_st = 30 if quick else 400
     for k in range(n_st):
         for fn in W.STATIONS:
             sd = rng.randrange(10 ** 9)
@@ -520,12 +520,14 @@ def real_runs(chk, tier, rng, jobs, ascode):
     return chk.finish()
 
 
-def judge(chk, traces, meta, ascode, cex=None):
+def judge(chk, traces, meta, ascode, cex=None, second_pass=True):
     cex = cex or {}
-    verdicts, results = validate(traces, ascode, "C08_trace", parallel=max(1, min(6, tlc.DEFAULT_WORKERS // 2)))
+    verdicts, results = validate(traces, ascode, "C08_trace" if second_pass else "C08_trace2",
+                                 parallel=max(1, min(6, tlc.DEFAULT_WORKERS // 2)))
     for r in results:
         chk.add_tlc("QueueTrace batch", r, note="trace validation: contract on the observed log + model comparison")
-    chk.impl_traces += len(traces)
+    if second_pass:
+        chk.impl_traces += len(traces)
     by_origin, confirmed = {}, {}
     drift_n = 0
     for tr in traces:
@@ -550,13 +552,29 @@ def judge(chk, traces, meta, ascode, cex=None):
             if tid in cex:
                 confirmed[cex[tid]] = key
         for what, p in ((mv, mpos), (qv, qpos)):
-            if what != "OK":
+            if what != "OK" and second_pass:
                 o["drift"] += 1
                 drift_n += 1
                 chk.note_drift(f"trace {tid} ({m['origin']}): {what} at record {p}; regen={m['regen']}")
+    if not second_pass:
+        chk.extra["by_origin_pass2"] = by_origin
+        return
     chk.extra["by_origin"] = by_origin
     chk.extra["counterexamples_confirmed_on_code"] = confirmed
     chk.extra["drift_traces"] = drift_n
+    # Second pass: an execution whose first failure is the known waiting-next-to-a-free-slot defect is judged
+    # again with clause (c) switched off, so that the rest of it is still checked for the other clauses.
+    again, meta2 = [], {}
+    for tr in traces:
+        v, pos = verdicts[tr["id"]][:2]
+        if v in ("PROP:idle_wait", "PROP:stranded") and tr["idle"] == 1:
+            key = classify(tr, v, pos, model_agrees=(tr["hassc"] == 1 and verdicts[tr["id"]][4] == "OK"))
+            if key in KEY_DEV and key in chk.known_open:
+                t2 = dict(tr, idle=0, id=len(again) + 1)
+                again.append(t2)
+                meta2[t2["id"]] = dict(origin=meta[tr["id"]]["origin"] + "+pass2", regen=meta[tr["id"]]["regen"])
+    if again:
+        judge(chk, again, meta2, ascode, second_pass=False)
 
 
 def finish_notes(chk):
